@@ -209,6 +209,17 @@ def x9(ctx, tab, sites, scc=()):
                 continue
             if kind.startswith('inc'):
                 if pn in DEPTH and what == pn and kind == 'inc1':
+                    # a level is counted where the directive is met — in the event-loop function; the wrappers around it (the file entry, the
+                    # macro resolver) hand their counters on unchanged, otherwise the file entry and the string entry start at different depths
+                    try:
+                        loop_name_ = model(ctx).loop_fn['name']
+                    except Exception:
+                        loop_name_ = None
+                    if loop_name_ is not None and caller != loop_name_ and callee == loop_name_:
+                        r.fail(key + ':inc-in-wrapper', where,
+                               '%s passes `%s` for `%s` of %s: a nesting level is counted by the function that meets the directive, not by the wrapper that re-enters it — here the same '
+                               'text is processed one level deeper through this entry than through the string entry, so the two entries disagree at the limit' % (caller, sx.render(arg), pn, callee),
+                               {'caller': caller, 'callee': callee, 'param': pn})
                     continue
                 r.fail(key + ':inc', where, '%s passes `%s` for `%s` of %s' % (caller, sx.render(arg), pn, callee))
                 continue
